@@ -103,6 +103,7 @@ pub fn run(ctx: &Ctx) -> Report {
     let n = ctx.cases(350_000, 6_000_000);
     run_generated(&mut sec, ctx.seed, n, ctx.workers, || strategy(gen::ConfigMenu::all_transports(), 5), check, sig);
     rep.sections.push(sec);
+    super::history_section(&mut rep, ctx, ctx.seed ^ 0x62, ctx.cases(100_000, 2_000_000), || strategy(gen::ConfigMenu::all_transports(), 4), check, sig);
     if ctx.tier == Tier::Thorough {
         let mut sec = Section::new(&format!("wild-programs-pin-level[{}]", ctx.variant), "as wild-programs, through SpiInterface / ParallelInterface");
         run_generated(&mut sec, ctx.seed ^ 0x52, ctx.cases(0, 300_000), ctx.workers, || strategy(gen::ConfigMenu::pin_level(), 4), check, sig);
@@ -114,6 +115,9 @@ pub fn run(ctx: &Ctx) -> Report {
     rep
 }
 
-pub fn replay(_section: &str, case: &Value) -> Result<(), String> {
+pub fn replay(section: &str, case: &Value) -> Result<(), String> {
+    if section.starts_with("after-history") {
+        return super::replay_history(case, check);
+    }
     check(&de::<ProgCase>(case)?, &mut CaseInfo::default())
 }
